@@ -228,12 +228,18 @@ def check_eq_hash(ctx, led, v, rule="C07.eq"):
     cn = Canon(om.ev, st0)
     key = cn(cv)
     hv, st1, _ = om.call("__hash__")
+    hash_ok = isinstance(hv, App) and hv.op == "hash" and Canon(om.ev, st1)(hv.args[0]) == key
+    hash_why = "found %s" % _brief(hv)
+    if not hash_ok and isinstance(hv, App) and hv.op == "hash":
+        # not literally hash(clean_vector()): accept any hash of a function of the canonical classes
+        hash_ok, hash_why = semantic_hash_ok(ctx, om, v, hv.args[0], st1)
     led.check(
-        isinstance(hv, App) and hv.op == "hash" and Canon(om.ev, st1)(hv.args[0]) == key,
+        hash_ok,
         rule + ".hash",
         "%s.__hash__" % om.clsname,
         om.module.where(cls.methods["__hash__"].node),
-        "hash must be hash(clean_vector()) with default arguments (the same key == compares); found %s" % _brief(hv),
+        "equal objects must have equal hashes: the hash must be computed from what == compares (version and defined metric "
+        "values only); %s" % hash_why,
     )
     ev_, st2, _ = om.call("__eq__", [Opaque("other")])
     ok = False
@@ -356,6 +362,30 @@ def _differ_everywhere(om, st, a, b):
     if isinstance(a, App) and isinstance(b, App) and a.op == b.op == "cat" and len(a.args) == len(b.args):
         return any(_differ_everywhere(om, st, x, y) for x, y in zip(a.args, b.args) if not (isinstance(x, Term) and isinstance(y, Term) and x == y))
     return False
+
+
+def semantic_hash_ok(ctx, om, v, hterm, st):
+    from .interp_expr import deps_of
+    from .rules_flow import pinned_canon
+
+    spec = ctx.vspec(v)
+    nd = spec["nd"]
+    terms = list(hterm.args) if isinstance(hterm, App) and hterm.op == "tuple" else [hterm]
+    d = set()
+    for t in terms:
+        d |= deps_of(t)
+    extra = sorted(x for x in d if not (x.startswith("m:") or x == "minor"))
+    if extra:
+        return False, "the hash depends on %s" % extra
+    for k in om.accepted:
+        s_ = metric_slot(k)
+        dom = st.folder().domain(s_)
+        if ABSENT in dom and nd in dom:
+            a = pinned_canon(om, st, {s_: (ABSENT,)}, terms)
+            b = pinned_canon(om, st, {s_: (nd,)}, terms)
+            if a is None or b is None or any(x != y for x, y in zip(a, b)):
+                return False, "the hash distinguishes an omitted %s from %s:%s although the objects compare equal" % (k, k, nd)
+    return True, None
 
 
 def semantic_key_ok(ctx, om, v, conj, st, hv, sth):
